@@ -543,14 +543,22 @@ def _unj(args):
     return (h, c) + ((args[2],) if len(args) > 2 else ())
 
 
+def named_case(item):
+    from . import _named
+
+    return _named.named_case(item)
+
+
 def replay(case):
+    if case.get("kind") == "named":
+        return named_case(tuple(case["where"]))[1]
     group, args, pipeline, prior = case["where"]
     pl = [(p[0], tuple(tuple(x) if isinstance(x, list) else x for x in p[1])) for p in pipeline]
     return chunk_case([(group, _unj(args), pl, prior)])[2]
 
 
 def run(ctx):
-    ctx.rule = "universes from the cell alphabet {NaN,-1,0,1,2}^3 x listing histories x algo parameters x prior temp contents, and pipelines of <= 3 selection algos, each on a real Strategy; a case is non-trivial if it lies in the documented domain and was executed"
+    ctx.rule = "universes from the cell alphabet {NaN,-1,0,1,2}^3 x listing histories x algo parameters x prior temp contents, and pipelines of <= 3 selection algos, each on a real Strategy; statistic / signal tables handed to a real Backtest by name (aligned, sparse, late-starting, longer than the data) x lags; a case is non-trivial if it lies in the documented domain and was executed"
     ctx.assumptions += [
         "include_no_data=True together with include_negative=False is not defined by the documentation and is not judged",
         "top-n is judged relationally (size, pool, every chosen >= every rejected, sorted) so ties cannot raise alarms; random selection by size/subset/reproducibility",
@@ -574,5 +582,13 @@ def run(ctx):
         ctx.add(states=tot, transitions=tot, traces_validated_against_impl=tot, evaluations=tot)
         ctx.nontrivial_count += tot
         ctx.extra.setdefault("executed", []).append({"build": kind, "judged": tot, "outside_documented_domain": sk})
+    named = [(k, v, lag) for k in ("stat", "where") for v in ("aligned", "sparse", "late_start", "longer") for lag in ((0, 1, 2, 3) if k == "stat" else (0,))]
+    for kind in kinds:
+        for item, (n, viols) in ctx.run(kind, MOD, "named_case", named, chunksize=1):
+            ctx.add(states=1, transitions=n, traces_validated_against_impl=n, evaluations=n)
+            ctx.nontrivial_count += 1
+            for v in viols:
+                ctx.violation(dict(v, build=kind, module=MOD, case={"kind": "named", "where": list(item)}))
+    ctx.bounds["named_table_backtests"] = len(named)
     ctx.sample({"algo": cs[10][0], "pipeline": _j(cs[10][2]), "universe": _j(cs[10][1])})
     ctx.sample({"algo": cs[-1][0], "pipeline": _j(cs[-1][2]), "universe": _j(cs[-1][1])})
